@@ -75,9 +75,7 @@ theorem simC_step (n : Nat) (hS : SimS n) (hC : SimC n) (hW : SimW n) (hE : SimE
       · exact quiet_of_zero (by simp [hx])
     | cons it rest =>
       simp only [List.isEmpty_cons, Bool.false_eq_true, ↓reduceIte]
-      have hsb' : supBody (bodyK K true) b = true := by
-        have : bodyK K true = { K with tl := true :: K.tl, inFor := true } := by simp [bodyK]
-        rw [this]; exact hsb
+      have hsb' : supBody (bodyK K) b = true := hsb
       have h := sim_forLoop hS x b (tailOk b = true) hst hb0 hsb' (fun h => h) (it :: rest) s hd hl
         (noFlags_of_exit hx) hp (fun h => by cases h)
       refine Rel.inl (Rel_mono (fun s' fl e' h' => ?_) h)
